@@ -30,7 +30,7 @@ def ambient_state(F, G, R):
         for n in tir.walk(b["tir"]["value"]):
             if n.get("k") == "Path" and n.get("res") == "def" and (n.get("dk") or "").startswith("Static"):
                 ty = n.get("ty") or ""
-                if "mut" in (n.get("dk") or "").lower() or any(x in ty for x in ("Cell<", "Mutex<", "RwLock<", "Atomic", "OnceLock<", "LazyLock<", "LocalKey<")):
+                if "mutability: Mut" in (n.get("dk") or "") or any(x in ty for x in ("Cell<", "Mutex<", "RwLock<", "Atomic", "OnceLock<", "LazyLock<", "LocalKey<")):
                     out.append((b["path"], "static %s: %s" % (n.get("path"), ty[:60]), tir.sp(n)))
     return out
 
